@@ -627,6 +627,37 @@ def P28():
     )
 
 
+def P29():
+    """A state that is reset to exactly zero on every step (update expression 0), next to ordinary ones."""
+    x, r, u, dt = V("x"), V("r"), V("u"), V("dt")
+    return Program(
+        id="P29-zero-update",
+        state=["x", "r", "w"],
+        control=["u"],
+        calibration=[],
+        update={"x": x + dt * u + r, "r": C(0), "w": x * dt},
+        process_noise={"u": 0.25},
+        sensors={"s": {"m": x + r}},
+        sensor_noise={"s": {"m": 0.5}},
+        note="update expression that is the constant 0",
+    )
+
+
+def P30():
+    """P3 under long descriptive names: generated statements contain whitespace-free runs of more than 100 characters."""
+    return P3().renamed(
+        {
+            "x": "ground_speed_estimate_in_meters_per_second",
+            "y": "lateral_slip_velocity_in_meters_per_second",
+            "z": "heading_angle_relative_to_true_north_rad",
+            "u": "commanded_drivetrain_torque_newton_meters",
+            "a": "accelerator_pedal_position_normalised_01",
+            "k": "drivetrain_efficiency_calibration_factor",
+        },
+        pid="P30-long-names",
+    )
+
+
 def quick_programs():
     return [P1(), P3(), P8()]
 
@@ -637,7 +668,7 @@ def all_fixed():
 
 def catalogue():
     """Every fixed program, including the model-level-only ones (replay looks programs up by id here)."""
-    return all_fixed() + [P11(), P18(), P21(), P22(), P23(), P24(), P25(), P26(), P27(), P28()]
+    return all_fixed() + [P11(), P18(), P21(), P22(), P23(), P24(), P25(), P26(), P27(), P28(), P29(), P30()]
 
 
 def with_noise(p, process=None, sensor=None, pid=None):
